@@ -6,6 +6,7 @@ import (
 	"go/ast"
 	"go/constant"
 	"go/types"
+	"golang.org/x/tools/go/packages"
 	"strings"
 )
 
@@ -22,10 +23,28 @@ before the FASTA and FASTQ detectors — Extend prepends, so it is tried after t
 }
 
 func runMT(c *Ctx, s *Sink) {
-	fd, p := c.FindFunc("pkg/obiformats", "OBIMimeTypeGuesser")
+	// the function that calls mimetype.Detect (clauses 1 and 2) and the one that registers the detectors (clause 3) are
+	// found by what they call, wherever the code was moved
 	base := "pkg/obiformats.OBIMimeTypeGuesser"
-	if fd == nil {
-		s.Undecided(nil, base, 0, "function not found")
+	var fd, fdExt *ast.FuncDecl
+	var p, pExt *packages.Package
+	c.EachFunc([]string{"pkg/obiformats"}, func(pp *packages.Package, d *ast.FuncDecl) {
+		ast.Inspect(d.Body, func(n ast.Node) bool {
+			if call, ok := n.(*ast.CallExpr); ok {
+				if f := callee(pp.TypesInfo, call); f != nil && f.Pkg() != nil && strings.HasSuffix(f.Pkg().Path(), "gabriel-vasile/mimetype") {
+					switch f.Name() {
+					case "Detect":
+						fd, p = d, pp
+					case "Extend":
+						fdExt, pExt = d, pp
+					}
+				}
+			}
+			return true
+		})
+	})
+	if fd == nil || fdExt == nil {
+		s.Undecided(nil, base, 0, "no function of pkg/obiformats calls mimetype.Detect / registers detectors")
 		return
 	}
 	info := p.TypesInfo
@@ -44,7 +63,7 @@ func runMT(c *Ctx, s *Sink) {
 	}
 	var exts []ext
 	n := 0
-	ast.Inspect(fd.Body, func(nd ast.Node) bool {
+	scan := func(nd ast.Node) bool {
 		call, ok := nd.(*ast.CallExpr)
 		if !ok {
 			return true
@@ -62,10 +81,14 @@ func runMT(c *Ctx, s *Sink) {
 					parent = types.ExprString(lk.Args[0])
 				}
 			}
-			exts = append(exts, ext{parent, rootObj(info, call.Args[0]), n})
+			exts = append(exts, ext{parent, rootObj(pExt.TypesInfo, call.Args[0]), n})
 		}
 		return true
-	})
+	}
+	ast.Inspect(fd.Body, scan)
+	if fdExt != fd {
+		ast.Inspect(fdExt.Body, scan)
+	}
 	key := base + ":detect-on-read-bytes"
 	var bufObj types.Object
 	bufSize := int64(-1)
@@ -135,7 +158,8 @@ func runMT(c *Ctx, s *Sink) {
 	// the csv detector: the local function literal that calls encoding/csv
 	var csvObj types.Object
 	recordDet := map[types.Object]bool{}
-	for o, ds := range defs {
+	defsExt := collectDefsTuple(pExt.TypesInfo, fdExt)
+	for o, ds := range defsExt {
 		for _, d := range ds {
 			lit, ok := ast.Unparen(d).(*ast.FuncLit)
 			if !ok {
